@@ -12,6 +12,7 @@
 -/
 import CRProofs.CRState
 import CRProofs.Decimal
+import CRProofs.CRNorm
 import Mathlib.Data.List.Perm.Subperm
 
 namespace CR.X
@@ -253,30 +254,41 @@ theorem C01_dynamic_shape_kept (P : Params) (l w o : Real) (c : Pt) :
   cases h1 : isZeroRepr o <;> cases h2 : (isZeroRepr c.x && isZeroRepr c.y) <;> simp [ptE, ECodec.ofKids, Codec.iso, Codec.pair, Codec.child,
     ECodec.ofText, Prim.dec]
 
-/-! ## the clause not proved in one piece -/
+/-! ## norm_close, in one piece -/
 
-/-- Full statement of norm_close: for an expressible document whose ids are non-zero, whose lanelets have a type, whose
-    states list their attributes in class order …, `normDoc` is the original with `floatToStr` applied to exactly the reals
-    the writer formats with `float_to_str` and nothing else changed.  Proved above piecewise (leaves: `C01_int_leaf` …
-    `C01_real_leaf`; states: `C01_field_kind`, `C01_state_fields_perm`, `C01_initial_defaults`; collections and order:
-    `C01_collections_kept`, `C01_order_kept_*`, `C01_ids_kept`; numeric bound: `C01_trunc_close`); what is missing is the single
-    structural map `Doc.mapReals` and the induction that glues the pieces for lanelets (adjacent id 0, empty type set →
-    `unknown`, stop line completion), signs (`virtual`) and lights (direction default), each of which `norm` also rewrites. -/
-def C01_norm_close_full : Prop :=
-  ∀ (cfg : Cfg) (d : Doc), Expressible cfg d →
-    (∀ l, l ∈ d.lanelets → l.types ≠ [] ∧ (∀ a, l.adjL = some a → a.ref ≠ 0) ∧ (∀ a, l.adjR = some a → a.ref ≠ 0)
-      ∧ (∀ s, l.stop = some s → s.pts ≠ none)) →
-    (∀ s, s ∈ d.signs → s.virtual = false) →
-    (normDoc cfg d).lanelets.map (fun l => (l.id, l.pred, l.succ, l.adjL, l.adjR, l.types, l.oneWay, l.bidir, l.signs, l.lights,
-        l.left.marking, l.right.marking)) =
-      d.lanelets.map (fun l => (l.id, l.pred, l.succ, l.adjL, l.adjR, l.types, l.oneWay, l.bidir, l.signs, l.lights,
-        l.left.marking, l.right.marking))
-    ∧ (normDoc cfg d).signs.map (fun s => (s.id, s.virtual, s.elements.map (fun e => e.values))) =
-      d.signs.map (fun s => (s.id, s.virtual, s.elements.map (fun e => e.values)))
-    ∧ (normDoc cfg d).lights.map (fun l => (l.id, l.active, l.cycle.map (fun c => (c.offset, c.elements.map (fun e => (e.duration, e.color)))))) =
-      d.lights.map (fun l => (l.id, l.active, l.cycle.map (fun c => (c.offset, c.elements.map (fun e => (e.duration, e.color))))))
+/-- **What one write → read does, exactly**: `normDoc` is `mapR` (apply `float_to_str` to the reals the writer truncates,
+    `decimal_to_str` to the reals it writes in full, touch nothing else) after `canon` (the discrete completions: adjacent id 0
+    dropped, empty lanelet type set ↦ {unknown}, stop line without points ↦ end points of the bounds, `virtual` ↦ False, light
+    direction / time offset defaults, sign ids through the country table, zero centre / orientation of a dynamic obstacle's
+    shape ↦ the reader's defaults, one-member shape group ↦ its member, attributes of a state in the order of the matching state
+    class, unset attributes of an initial state ↦ 0).  For every precision d ≥ 1. -/
+theorem C01_norm_eq_mapR_canon (cfg : Cfg) (hd : 1 ≤ cfg.P.d) (hne : cfg.classes ≠ []) (d : Doc) (hl : ∀ l, l ∈ d.lanelets → l.Ok) :
+    normDoc cfg d = (d.canon cfg).mapR (realMaps cfg.P) := normDoc_eq cfg hd hne d hl
 
-/-- the part of it that concerns traffic lights' cycles and ids, and sign ids / additional values -/
+/-- **norm_close_full**: on a strictly expressible document (`Doc.Strict`: ids ≥ 1 in references, a lanelet type, stop lines
+    with points, `virtual` False, known sign ids and directions, offsets ≥ 0, groups of ≥ 2 shapes, states listing their
+    attributes in class order, initial states with every attribute set) the round trip changes NOTHING but the reals, each by
+    `float_to_str` (bounded by `C01_trunc_close`) or `decimal_to_str` (same value): all discrete parts identical, the same
+    attributes populated, exact / interval / region unchanged, every collection in the same order. -/
+theorem C01_norm_close_full (cfg : Cfg) (hd : 1 ≤ cfg.P.d) (hne : cfg.classes ≠ []) (d : Doc) (h : d.Strict cfg) :
+    normDoc cfg d = d.mapR (realMaps cfg.P) := by
+  rw [normDoc_eq cfg hd hne d (fun l hl => (h.lanelets l hl).ok), Doc.canon_id cfg d h]
+
+/-- round trip and norm_close together: reading the written file of a strict document yields the document with its reals
+    formatted, nothing else -/
+theorem C01_xml_roundtrip_strict (cfg : Cfg) (hcfg : CfgOk cfg) (hne : cfg.classes ≠ []) (hd1 : 1 ≤ cfg.P.d) (d : Doc)
+    (hd : Expressible cfg d) (hs : d.Strict cfg) (pre post : List Xml) (hpre : Foreign cfg pre) (hpost : Foreign cfg post) :
+    decodeDoc cfg (pre ++ encodeDoc cfg d ++ post) = some (d.mapR (realMaps cfg.P)) := by
+  rw [C01_xml_roundtrip cfg hcfg hne d hd pre post hpre hpost, C01_norm_close_full cfg hd1 hne d hs]
+
+/-- the unset attributes of an initial state read back as 0, the set ones with their formatted value, in the order of
+    `InitialState`; nothing else about an obstacle or planning problem changes (corollary of the per-element equations) -/
+theorem C01_initial_state_close (cfg : Cfg) (hd : 1 ≤ cfg.P.d) (hne : cfg.classes ≠ []) (s : State) :
+    normInitial cfg s = (s.canonInitial cfg).mapR (realMaps cfg.P) :=
+  normInitial_eq cfg (realMaps_zeroFixed cfg.P hd) hne s
+
+/-- (formerly the only proved part) ids, additional values, cycles and `active` of signs and lights are untouched — now a
+    corollary of the element equations `signE_norm_eq`, `lightE_norm_eq` -/
 theorem C01_norm_close_partial (cfg : Cfg) (d : Doc) :
     (normDoc cfg d).signs.map (fun s => (s.id, s.elements.map (fun e => e.values))) =
       d.signs.map (fun s => (s.id, s.elements.map (fun e => e.values)))
@@ -288,19 +300,12 @@ theorem C01_norm_close_partial (cfg : Cfg) (d : Doc) :
   constructor
   · apply List.map_congr_left
     intro s _
-    simp only [Function.comp, signE, ECodec.pmap, List.map_map]
-    congr 1
-    apply List.map_congr_left
-    intro e _
-    simp [signElementE, ECodec.ofKids, Codec.iso, Codec.pair, Codec.many, ECodec.ofText, Prim.str]
+    simp only [Function.comp, signE_norm_eq, Sign.canon, Sign.mapR, List.map_map]
+    rfl
   · apply List.map_congr_left
     intro l _
-    simp only [Function.comp, lightE, ECodec.pmap]
-    cases hc : l.cycle with
-    | none => rfl
-    | some c =>
-      simp only [Option.map, cycleE, ECodec.ofKids, Codec.iso, Codec.pair, Codec.many, List.map_map]
-      congr 3
+    simp only [Function.comp, lightE_norm_eq, Light.canon, Light.mapR]
+    cases l.cycle <;> rfl
 
 /-! ## non-vacuity -/
 
@@ -357,4 +362,27 @@ example : (∀ c, c ∈ ['1', '2', '3', '4', '5', '6'] → c.isDigit = true) ∧
 
 example : truncChars 4 "-12.3456789".toList = "-12.3456".toList := by decide
 
-end CR.X
+/-- a document with a lanelet (adjacent reference, stop line with points), a traffic light and an environment obstacle with a
+    shape group meets `Doc.Strict` -/
+example : Doc.Strict (realCfg 4)
+    ⟨[⟨1, ⟨[⟨"0.0", "3.5"⟩, ⟨"10.0", "3.5"⟩], "solid"⟩, ⟨[⟨"0.0", "0.0"⟩, ⟨"10.0", "0.0"⟩], "dashed"⟩, [], [2], some ⟨2, true⟩, none,
+        some ⟨some (⟨"10.0", "3.5"⟩, ⟨"10.0", "0.0"⟩), "solid", [], [7]⟩, ["urban"], ["car"], [], [], [7]⟩],
+     [], [⟨7, some ⟨[⟨30, "red"⟩, ⟨5, "green"⟩], 0⟩, some ⟨"9.99", "-0.96"⟩, "leftRight", false⟩], [], [],
+     [],
+     [], [⟨11, "building", .group [.circ "1.0" ⟨"1.0", "2.0"⟩, .poly []]⟩], []⟩ := by
+  constructor <;> intro x hx <;> simp only [List.mem_cons, List.mem_singleton, List.not_mem_nil, or_false] at hx
+  · subst hx
+    refine ⟨?_, ?_, by decide, ?_⟩
+    · intro a ha; cases ha; decide
+    · intro a ha; cases ha
+    · intro s hs; cases hs; simp
+  · subst hx
+    refine ⟨by decide, ?_⟩
+    intro c hc; cases hc; decide
+  · subst hx
+    refine ⟨by decide, ?_⟩
+    intro s hs
+    simp only [List.mem_cons, List.mem_singleton, List.not_mem_nil, or_false] at hs
+    rcases hs with rfl | rfl
+    · intro h; cases h
+    · trivial
